@@ -68,13 +68,13 @@ func (ch *Channel) Start() {
 	go func() {
 		for {
 			message := <-*ch.messageChan
-			verifhook.Yield("pubsub.dequeue")
+			verifhook.YieldL("pubsub.dequeue", ch.name)
 
 			ch.subscribersRWMut.RLock()
 
 			for _, conn := range ch.subscribers {
 				go func(conn *resp.Conn) {
-					verifhook.Yield("pubsub.deliver")
+					verifhook.YieldL("pubsub.deliver", conn.RemoteAddr)
 					if err := conn.WriteArray([]resp.Value{
 						resp.StringValue("message"),
 						resp.StringValue(ch.name),
